@@ -33,6 +33,7 @@ def mech_variants():
 def benign_variants():
     """behaviour-preserving refactorings written by independent agents (/verif/benign/<id>/patch.diff, each with an
     equivalence script that prints the same digest with and without it): every rule must stay silent and decided"""
+    import json
     from .rules import load_all, RULES
     load_all()
     base = os.path.join(os.path.dirname(os.path.dirname(os.path.abspath(__file__))), "benign")
@@ -42,7 +43,12 @@ def benign_variants():
     for d in sorted(os.listdir(base)):
         pp = os.path.join(base, d, "patch.diff")
         if os.path.exists(pp):
-            out.append(dict(name=f"benign {d}", rules=sorted(RULES), edits=[], patch=pp, names=[], expect="silent"))
+            mp = os.path.join(base, d, "meta.json")
+            meta = json.load(open(mp)) if os.path.exists(mp) else {}
+            # a redesign the rules cannot follow may leave a check undecided (exit 2, the check needs maintenance) —
+            # recorded per patch with its reason; it must still never raise an alarm
+            out.append(dict(name=f"benign {d}", rules=sorted(RULES), edits=[], patch=pp, names=[], expect="silent",
+                            undecided_ok=bool(meta.get("tolerated_undecided"))))
     return out
 
 
@@ -119,8 +125,10 @@ def run_variant(v, repo=None):
             return v["name"], "FAIL", f"expected a report naming {v.get('names')}; new findings: " \
                                       f"{[f.key[:80] for f in new][:4]} undecided: {und[:2]}"
         else:
-            if new or und:
+            if new or (und and not v.get("undecided_ok")):
                 return v["name"], "FAIL", f"benign twin raised {[f.key[:90] for f in new][:3]} {und[:2]}"
+            if und:
+                return v["name"], "ok", f"silent; undecided (tolerated, see meta.json): {und[0][:80]}"
             return v["name"], "ok", "silent"
     except Exception:
         return v["name"], "FAIL", traceback.format_exc()[-400:]
